@@ -31,6 +31,12 @@ claim("C01", "model-based property testing (rapid state-machine style op histori
       "Secrets come from near-miss pools (other account's secret, stale, stored value replayed, mutated). Exploration: ~7k histories quick, ~200k thorough.",
       TRUST + " Credential validity is recomputed from the pre-request store; a defect that corrupts stored credentials at issue time is the subject of C05/C06/C07/C12/C19, not of this check.")
 
+claim("C02", "model-based property testing of adversarial 2FA histories (rapid) with ground truth from the SMS outbox / TOTP reference implementation",
+      WM + "every case has >=2 accounts holding TOTP/SMS factors plus adversary accounts with their own phones; histories concentrate on logins, code requests, validations and time gaps around the resend limit. "
+      "Oracle: a password/OTP/recover-login response never sets the session user to a 2FA account; a validate request does so only if the presented code is valid for that account's own factor "
+      "(TOTP reference check on its stored secret; latest unconsumed code the outbox shows was sent to its registered number for this browser; one of its unused recovery codes).",
+      TRUST + " Flows the statement does not list (remember re-auth, OAuth2, registration) are outside this monitor.")
+
 NOT_YET = "check not built yet in this round (claimed in DESIGN.md; will be claimed once its check is committed)"
 
 def main():
